@@ -53,7 +53,8 @@ def judge(spec, inputs, out, ob):
         t = C.snap_eval(ids[nid], inputs["vals"], fixed)
         if lo != t or hi != t:
             bad.append("%s: evaluated (%d,%d), truth function gives %d" % (nid, lo, hi, t))
-    if not fixed and set(out["props"]) != set(ids):
+    prefixed = any(c.get("vb") in ([1, 1], [0, 0]) for c in plspec.compounds(spec["model"]))
+    if not fixed and not prefixed and set(out["props"]) != set(ids):
         bad.append("result ids %s != model ids %s" % (sorted(out["props"]), sorted(ids)))
     t = C.snap_eval(snap, inputs["vals"], fixed)
     if out["top"] != [t, t]:
